@@ -24,7 +24,7 @@ c.ensures('decoded', 'implies(encoded_payload is not None and len(encoded_payloa
 c.ensures('empty', 'implies(encoded_payload is not None and len(encoded_payload) == 0, self.packets == [])')
 c.ensures('types-are-digits', 'implies(encoded_payload is not None, forall(lambda k: '
           '0 <= self.packets[k].packet_type and self.packets[k].packet_type <= 9, 0, len(self.packets)))')
-c.modifies('self.packets', 'Packet.binary', 'Packet.packet_type', 'Packet.data', 'Packet.encode_cache')
+c.modifies('self.packets')   # fields of the freshly built packets are outside every frame
 
 c = REG.contract('payload.Payload.decode', props=['C02', 'C04', 'C14'])
 c.param('self', Ref('Payload')).param('encoded_payload', STR)
@@ -43,14 +43,15 @@ c.ensures('decoded', 'implies(len(encoded_payload) > 0, '
           'len(self.packets) <= 16 and '
           'forall(lambda k: packet_is(self.packets[k], payload_body(encoded_payload).split("\\x1e")[k]), '
           '0, len(self.packets)))')
-c.modifies('self.packets', 'Packet.binary', 'Packet.packet_type', 'Packet.data', 'Packet.encode_cache')
+c.modifies('self.packets')   # fields of the freshly built packets are outside every frame
 c.loop(0, index='i', elem_ty=Ref('Packet'),
        invariants=[('decoded-so-far',
                     'forall(lambda k: packet_is(comp[k], encoded_packets[k]), 0, i)'),
                    ('types-are-digits', 'forall(lambda k: 0 <= comp[k].packet_type and '
                     'comp[k].packet_type <= 9, 0, i)'),
                    ('allocated', 'forall(lambda k: comp[k] <= alloc_now(), 0, i)')],
-       modifies=['Packet.binary', 'Packet.packet_type', 'Packet.data', 'Packet.encode_cache'])
+       modifies=['new Packet.binary', 'new Packet.packet_type', 'new Packet.data',
+                 'new Packet.encode_cache'])
 
 c = REG.contract('payload.Payload.encode', props=['C02', 'C19'])
 c.param('self', Ref('Payload')).param('jsonp_index', [NONE, INT])
